@@ -89,6 +89,17 @@ def main():
         bad_words = vlib.forbidden_grep()
     finally:
         lock.close()
+    # run-time evaluated links between theorem statements and the model (driver mode `selfcheck`)
+    if P.get('selfcheck'):
+        import subprocess
+        try:
+            r = subprocess.run([vlib.DRIVER, 'selfcheck'], capture_output=True, text=True, timeout=600)
+            got = dict(l.split(' ', 1) for l in r.stdout.strip().splitlines() if ' ' in l)
+        except Exception as e:
+            got = {}
+        for name in P['selfcheck']:
+            if got.get(name) != 'true':
+                broken.append({'kind': 'selfcheck', 'name': name, 'value': got.get(name)})
     discharged = 0
     thm_report = []
     for t in P['theorems']:
